@@ -105,6 +105,13 @@ def scenarios():
     # impossible: code that prepares its output under $TMPDIR falls back to copying over the target)
     for name in ("inplace", "inplace-nobackup", "stdin-to-existing-output", "file-to-new-output"):
         S.append(dict(next(x for x in S if x["name"] == name), name=name + "-other-filesystem", xdev=True))
+    # a document that has a second hard link (not an input): the other name keeps the old content whatever happens
+    S.append({"name": "inplace-nobackup-hardlinked", "files": ["a.md"], "hardlink": ("a.md", "also-a.md"), "argv": ["-i", "--nobackup", "a.md"]})
+    S.append({"name": "auto-hardlinked-multi", "files": ["a.md", "b.md"], "hardlink": ("b.md", "also-b.md"), "argv": ["--auto", "a.md", "b.md"]})
+    # a file name so long that "<name><unique suffix>.partial" does not fit into a directory entry (today: refused, file untouched)
+    LONG = "n" * 238 + ".md"
+    S.append({"name": "inplace-nobackup-long-name-other-filesystem", "files": [LONG], "argv": ["-i", "--nobackup", LONG], "content": {LONG: OLD["a.md"]}, "xdev": True})
+    S.append({"name": "inplace-long-name", "files": [LONG, "b.md"], "argv": ["-i", LONG, "b.md"], "content": {LONG: OLD["a.md"]}})
     # the same file reached directly and through a symlinked DIRECTORY: still one file, one backup of the original
     S.append({"name": "inplace-same-file-through-symlinked-dir", "files": ["docs/guide.md", "b.md"], "mkdirs": ["docs"], "dirlink": ("current", "docs"),
               "argv": ["-i", "docs/guide.md", "b.md", "current/guide.md"], "content": {"docs/guide.md": OLD["a.md"]}})
@@ -127,7 +134,7 @@ class C14(Prop):
     id = "C14"
     once_kinds = ("enumerate", "strace")
     level = "fault_enumeration"
-    rule = ("cases: 31 scenarios (four of them with the documents on another file system than the temporary directory) x {fault at every file-system audit event, crash (fork + _exit) at every file-system audit event, "
+    rule = ("cases: 35 scenarios (five of them with the documents on another file system than the temporary directory) x {fault at every file-system audit event, crash (fork + _exit) at every file-system audit event, "
             "crash at every executed line inside flowmark/reformat_api.py + strif + pathlib during the run}; each injection "
             "point is one evaluation and is followed by an end-state check of the whole scratch directory. Non-trivial: the "
             "injection point was reached (the run really died / failed there); distinct by (scenario, kind, k). The point "
@@ -179,6 +186,8 @@ class C14(Prop):
                 fh.write("STALE BACKUP of " + f + " from an earlier run\n")
         if "symlink" in sc:
             os.symlink(sc["symlink"][1], os.path.join(root, sc["symlink"][0]))
+        if "hardlink" in sc:
+            os.link(os.path.join(root, sc["hardlink"][0]), os.path.join(root, sc["hardlink"][1]))
         if "dirlink" in sc:
             os.symlink(sc["dirlink"][1], os.path.join(root, sc["dirlink"][0]))
 
@@ -421,10 +430,32 @@ class C14(Prop):
             finally:
                 mon.set_events(tool, 0)
                 st["on"] = False
+        def on_line_interrupt(code, line):
+            if not st["on"]:
+                return None
+            if code.co_filename not in files:
+                return mon.DISABLE
+            st["n"] += 1
+            if st["n"] == st["k"]:
+                st["on"] = False
+                raise KeyboardInterrupt("injected by vf at a source line")
+            return None
         try:
             self.setup_dir(sc, root)
             run(None)
             total = st["n"]
+            # Ctrl-C arriving at the k-th executed line of the write path (in-process: clean-up code runs, unlike after a kill)
+            mon.register_callback(tool, mon.events.LINE, on_line_interrupt)
+            for k in range(1, total + 1, max(3, case.get("line_stride", 1) * 3)):
+                self.setup_dir(sc, root)
+                mon.restart_events()
+                run(k)
+                col.case()
+                col.mon("linecrash")
+                col.count("line_interrupt_points")
+                self.judge(sc, start, clean, self.snapshot(root), {"monitor": "linecrash", "k": k, "of": total, "as": "KeyboardInterrupt"}, col, case)
+            mon.register_callback(tool, mon.events.LINE, on_line)
+            mon.restart_events()
             col.hist("line_points_per_scenario", f"{sc['name']}:{total}")
             for k in range(1, total + 1, case.get("line_stride", 1)):
                 self.setup_dir(sc, root)
